@@ -255,12 +255,77 @@ namespace
     ctx.nontrivial();
   }
 
+  // several handles alive at the same time: each one is its own world, also when it was created with exactly the arguments of another one.
+  // (0) random world, two C handles and two C++ wrappers with identical arguments, queried in interleaved order: each stream equals that of its own native twin;
+  // (1) the file is rewritten between two creations with the same name: the second handle answers from the new contents, the first one keeps the old ones
+  void run_handles(uint64_t idx, Ctx &ctx)
+  {
+    const P3 p = {{-2.5e5, 1e5, CART_TOP - 3e4}};
+    if (idx == 0)
+      {
+        worlds::Opt o; o.random_models = true; o.cross_section = true;
+        const std::string file = write_world_file(worlds::rich(o), "c16handles");
+        for (unsigned long seed : {1ul, 7ul})
+          {
+            void *a = nullptr, *b = nullptr;
+            create_world(&a, file.c_str(), nullptr, nullptr, seed);
+            create_world(&b, file.c_str(), nullptr, nullptr, seed);
+            wrapper_cpp::WorldBuilderWrapper ca(file, false, "", seed), cb(file, false, "", seed);
+            World na(file, false, "", seed), nb(file, false, "", seed), nca(file, false, "", seed), ncb(file, false, "", seed);
+            // pattern of who is asked next: A A B A B B B A ... (the two streams advance at different paces)
+            const int PATTERN[12] = {0,0,1,0,1,1,1,0,1,0,0,1};
+            for (int k = 0; k < 48; ++k)
+              {
+                const bool second = PATTERN[k % 12] == 1;
+                const P3 q = {{p[0] + 1e4 * (k % 5), p[1] - 2e4 * (k % 3), p[2]}};
+                double v = 0;
+                composition_3d(second ? b : a, q[0], q[1], q[2], 3e4, 3, &v);
+                const double want = (second ? nb : na).composition(q, 3e4, 3);
+                ctx.eval();
+                if (!biteq(v, want))
+                  { ctx.violation("C16/two-handles-with-identical-arguments/c-handle-stream-depends-on-the-other-handle", JObj().str("what", "a random composition through one C handle differs from the native world with the same seed that received the same queries").integer("query_number", k).num("got", v).num("native", want).str("world", file).done()); break; }
+                const double vc = (second ? cb : ca).composition_3d(q[0], q[1], q[2], 3e4, 3);
+                const double wantc = (second ? ncb : nca).composition(q, 3e4, 3);
+                if (!biteq(vc, wantc))
+                  { ctx.violation("C16/two-handles-with-identical-arguments/cpp-wrapper-stream-depends-on-the-other-wrapper", JObj().str("what", "a random composition through one C++ wrapper object differs from the native world with the same seed that received the same queries").integer("query_number", k).num("got", vc).num("native", wantc).str("world", file).done()); break; }
+              }
+            release_world(a); release_world(b);
+          }
+      }
+    else
+      {
+        const std::string dir = G().rundir + "/rewrite" + std::to_string(G().shard_id);
+        (void)!system(("rm -rf '" + dir + "' && mkdir -p '" + dir + "'").c_str());
+        const std::string path = dir + "/w.wb";
+        auto text_of = [](int T) { return world(coord(false), {"{\"model\":\"mantle layer\",\"name\":\"m\",\"coordinates\":[[-1e6,-1e6],[1e6,-1e6],[1e6,1e6],[-1e6,1e6]],\"temperature models\":[{\"model\":\"uniform\",\"temperature\":" + std::to_string(T) + "}]}"}); };
+        { std::ofstream f(path); f << text_of(500); }
+        void *a = nullptr, *b = nullptr;
+        create_world(&a, path.c_str(), nullptr, nullptr, 1);
+        auto ca = std::make_unique<wrapper_cpp::WorldBuilderWrapper>(path, false, "", 1);
+        { std::ofstream f(path); f << text_of(900); }
+        create_world(&b, path.c_str(), nullptr, nullptr, 1);
+        auto cb = std::make_unique<wrapper_cpp::WorldBuilderWrapper>(path, false, "", 1);
+        double ta = 0, tb = 0;
+        temperature_3d(a, 0, 0, CART_TOP - 1e5, 1e5, &ta); temperature_3d(b, 0, 0, CART_TOP - 1e5, 1e5, &tb);
+        ctx.eval(4);
+        if (ta != 500 || tb != 900) ctx.violation("C16/file-rewritten-between-two-creations/c-handle", JObj().str("what", "two C handles created from one file name, the file rewritten in between (500 K, then 900 K)").num("first_handle", ta).num("second_handle", tb).done());
+        const double tca = ca->temperature_3d(0, 0, CART_TOP - 1e5, 1e5), tcb = cb->temperature_3d(0, 0, CART_TOP - 1e5, 1e5);
+        if (tca != 500 || tcb != 900) ctx.violation("C16/file-rewritten-between-two-creations/cpp-wrapper", JObj().str("what", "two C++ wrapper objects created from one file name, the file rewritten in between (500 K, then 900 K)").num("first_object", tca).num("second_object", tcb).done());
+        // releasing one handle leaves the other one usable
+        release_world(a);
+        temperature_3d(b, 0, 0, CART_TOP - 1e5, 1e5, &tb);
+        if (tb != 900) ctx.violation("C16/file-rewritten-between-two-creations/c-handle-after-release-of-the-other", JObj().num("second_handle", tb).done());
+        release_world(b);
+      }
+    ctx.nontrivial();
+  }
+
   // free-running ThreadSanitizer pass: one C handle and one C++ wrapper object shared by several threads (separate binary)
   void run_tsan(bool thorough, uint64_t, Ctx &ctx)
   {
     static const int c_q = Ctx::counter_id("tsan_free_running_queries");
     const std::string log = G().rundir + "/c16tsan.log";
-    const std::string cmd = "TSAN_OPTIONS='halt_on_error=0 report_signal_unsafe=0 exitcode=66' /verif/build/tsan/bin/C16_tsan " + G().rundir + " " + (thorough ? "8" : "4") + " 8 " + (thorough ? "1500" : "300");
+    const std::string cmd = "TSAN_OPTIONS='halt_on_error=0 report_signal_unsafe=0 exitcode=66' /verif/build/tsan/bin/C16_tsan " + G().rundir + " " + (thorough ? "8" : "4") + " 20 " + (thorough ? "600" : "120");   // 20 threads: more than any small fixed pool of per-thread slots
     const int rc = system((cmd + " > " + log + " 2>&1").c_str());
     const std::string out = read_tail(log, 200000);
     ctx.eval();
@@ -296,11 +361,13 @@ int main(int argc, char **argv)
   return driver(argc, argv, spec, [](const std::string &tier)
   {
     const bool th = tier == "thorough";
-    std::vector<Suite> s(3);
+    std::vector<Suite> s(4);
+    s[3].name = "handles"; s[3].n = 2; s[3].run = run_handles;
+    s[3].bound = "several handles alive at once: two C handles and two C++ wrapper objects with identical arguments on a world with random models, 48 queries in an uneven interleaving, seeds 1 and 7, each stream compared with its own native twin; one file name rewritten between two creations";
     s[2].name = "filenames"; s[2].n = 1; s[2].run = run_filenames;
     s[2].bound = "9 file names that differ by leading / trailing / inner blanks, tab, newline, dot, case: each holds its own uniform temperature; C interface and C++ wrapper must read the named file like the native World does";
     s[1].name = "tsan"; s[1].n = 1; s[1].run = [th](uint64_t i, Ctx &c) { run_tsan(th, i, c); }; s[1].watchdog_s = 900;
-    s[1].bound = "ThreadSanitizer build, free running: 8 threads share one C handle and one C++ wrapper object (temperature / composition with different numbers / properties, 2-D and 3-D) on 4 | 8 worlds; no report, all values equal the native single-threaded answers";
+    s[1].bound = "ThreadSanitizer build, free running: 20 threads (thread t uses request list t % 3 of three lists of different lengths) share one C handle and one C++ wrapper object (temperature / composition with different numbers / properties, 2-D and 3-D) on 4 | 8 worlds; no report, all values equal the native single-threaded answers";
     s[0].name = "wrappers"; s[0].n = 4*3*4*3; s[0].run = run;
     s[0].bound = "4 worlds x 3 flag pointers x 3 directory arguments x 3 seeds, full product; 240 3-D + 54 2-D points x 56 request lists";
     return s;
